@@ -255,7 +255,7 @@ fn gen_scenario(seed: u64, index: u64, focus: &str, jitter: bool) -> Scenario {
     // template "expiry race": entries stored, clock moved to the expiry boundary, then several
     // threads look the same keys up at once (expired purge racing stores of the same key)
     let mut prelude = vec![];
-    if let Some(fi) = (0..fns.len()).find(|i| fns[*i].d.ttl.is_some() && !fns[*i].d.scope_thread) {
+    if let Some(fi) = (0..fns.len()).find(|i| fns[*i].d.ttl.map_or(false, vmon::model::ttl_reachable) && !fns[*i].d.scope_thread) {
         if index % 4 == 1 {
             let t = fns[fi].d.ttl.unwrap() as i64;
             let ss: Vec<u32> = fns[fi].slots.iter().copied().take(1 + rng.usize(2)).collect();
@@ -819,7 +819,7 @@ fn run_scenario(rep: &mut Report, sc: &mut Scenario, seed: u64, mode: &str, focu
             }
         }
         // probe 2 (ttl): after ttl seconds every listed entry must be recomputed
-        if let Some(t) = d.ttl {
+        if let Some(t) = d.ttl.filter(|t| vmon::model::ttl_reachable(*t)) {
             let l2 = listing(d.reg_name).unwrap_or_default();
             vmon::clock::advance(t as i64 * 1_000_000_000);
             let revs: HashMap<&String, u32> = f.keymap.iter().map(|(k, v)| (v, *k)).collect();
@@ -868,7 +868,23 @@ fn run_scenario(rep: &mut Report, sc: &mut Scenario, seed: u64, mode: &str, focu
     Outcome { status: "ok" }
 }
 
+/// see l2mon: names that only declare metadata (never a used cache)
+fn register_unused_names() {
+    let all = |v: &[&str]| v.iter().map(|s| s.to_string()).collect::<Vec<_>>();
+    for i in 0..6 {
+        cachelito_core::InvalidationRegistry::global().register(
+            &format!("declared_only_{}", i),
+            cachelito_core::InvalidationMetadata::new(
+                all(&["t_user", "t_geo", "t_cfg", "shared_a", "shared_b", "t_conc"]),
+                all(&["e_upd", "e_del", "shared_a", "shared_c"]),
+                all(&["d_db", "d_idx", "shared_b", "shared_c"]),
+            ),
+        );
+    }
+}
+
 fn main() {
+    register_unused_names();
     let args: Vec<String> = std::env::args().collect();
     let mut out = String::from("/dev/stdout");
     let mut seed = vmon::rng::seed_from_env();
